@@ -1817,6 +1817,12 @@ where
     }
 }
 
+/// Upper bound on the total number of empty slots (gaps left behind by deleted items) that the
+/// temporary public identifiers (`!A123`) of one serialised list may ask the loader to create.
+/// A temporary identifier encodes a handle; without a bound a single identifier in an untrusted
+/// document makes the loader allocate (or abort on) an arbitrarily large store.
+pub(crate) const MAX_TEMP_ID_GAP: usize = 65536;
+
 /// Test if this is a temporary public identifier,
 /// they have a form like `!A0` . They start with an exclamation mark,
 /// a capital letter indicates the type (A for Annotation), and a number
